@@ -48,8 +48,58 @@ fn lit_ident(s: &str) -> String {
     format!("([{}] /- {:?} -/)", cps.join(", "), s)
 }
 
+/// Replace every free occurrence of a parameter name by the argument
+/// expression (inlining of a helper whose body is a single expression /
+/// statement; arguments are side-effect-free values, so substitution is what
+/// the call computes).
+struct Subst<'a>(&'a std::collections::HashMap<String, Expr>);
+impl syn::visit_mut::VisitMut for Subst<'_> {
+    fn visit_expr_mut(&mut self, e: &mut Expr) {
+        if let Expr::Path(p) = e {
+            if p.qself.is_none() && p.path.segments.len() == 1 {
+                if let Some(r) = self.0.get(&p.path.segments[0].ident.to_string()) {
+                    *e = r.clone();
+                    return;
+                }
+            }
+        }
+        syn::visit_mut::visit_expr_mut(self, e);
+    }
+}
+
+/// names bound by patterns below a node (a helper that re-binds one of its
+/// parameters is not inlined)
+#[derive(Default)]
+struct Binders(Vec<String>);
+impl<'ast> syn::visit::Visit<'ast> for Binders {
+    fn visit_pat_ident(&mut self, p: &'ast syn::PatIdent) {
+        self.0.push(p.ident.to_string());
+        syn::visit::visit_pat_ident(self, p);
+    }
+}
+
+/// parameter names of a function signature (receiver skipped); `None` if a parameter is not a plain name
+fn param_names(sig: &syn::Signature) -> Option<Vec<String>> {
+    sig.inputs
+        .iter()
+        .filter_map(|a| match a {
+            syn::FnArg::Receiver(_) => None,
+            syn::FnArg::Typed(pt) => Some(match &*pt.pat {
+                Pat::Ident(i) if i.subpat.is_none() => Some(i.ident.to_string()),
+                _ => None,
+            }),
+        })
+        .collect()
+}
+
 #[derive(Default)]
 struct Tr {
+    /// private helper functions of the file whose body is a single expression:
+    /// name ↦ (parameters, body); a call to one is translated as its body with
+    /// the arguments substituted (`global_type_name("Verdict")` ↦ the
+    /// `ResolvedName { … }` literal it returns)
+    helpers: std::collections::HashMap<String, (Vec<String>, Expr)>,
+    inline_depth: usize,
     /// `let NAME: TypeId = TypeId::of::<T>();`
     consts: Vec<(String, String)>,
     /// arms `x if x == K => "name"` of the leaf table, in source order
@@ -188,6 +238,16 @@ impl Tr {
                         self.val(&c.args[1])?
                     ),
                     ("Vec::new", 0) => "[]".into(),
+                    (f, n) if self.helpers.get(f).is_some_and(|h| h.0.len() == n) && self.inline_depth < 4 => {
+                        let (params, body) = self.helpers[f].clone();
+                        let map: std::collections::HashMap<String, Expr> = params.into_iter().zip(c.args.iter().cloned()).collect();
+                        let mut body = body;
+                        syn::visit_mut::VisitMut::visit_expr_mut(&mut Subst(&map), &mut body);
+                        self.inline_depth += 1;
+                        let v = self.val(&body);
+                        self.inline_depth -= 1;
+                        v?
+                    }
                     _ => return Err(format!("unsupported call `{}`", toks(e))),
                 }
             }
@@ -671,9 +731,9 @@ impl<'ast> syn::visit::Visit<'ast> for ForceArms {
                     self.bad.push(format!("unsupported pattern `{pat}` on a resolved verdict side"));
                     return;
                 };
-                let body = toks(&i.then_branch).replace(['{', '}'], "");
+                let body = toks(&i.then_branch).replace(['{', '}'], "").replace(",)", ")");
                 let want_prefix = format!("self.unify(&Type::{head}({var}),&Type::");
-                let want_suffix = "(),f.ident.id,None,).unwrap();";
+                let want_suffix = "(),f.ident.id,None).unwrap();";
                 let forced = body.strip_prefix(&want_prefix).and_then(|s| s.strip_suffix(want_suffix));
                 match forced {
                     Some(f) if i.else_branch.is_none() && f.chars().all(|c| c.is_alphanumeric() || c == '_') => {
@@ -696,8 +756,41 @@ fn force_filtermap(repo: &Path) -> Result<Vec<(String, String, String)>, String>
     require(&body, "let signature = self.type_info.function_signature(&f.ident); let return_type = signature.return_type;", "force_filtermap_types")?;
     require(&body, "let Type::Name(TypeName { name: _, arguments }) = &return_type else {", "force_filtermap_types")?;
     require(&body, "let [a, r] = &arguments[..] else {", "force_filtermap_types")?;
+    // a statement `self.<m>(args);` where `<m>` is a method of the type checker whose body is one
+    // `if let … = self.resolve_type(<parameter>) { … }` statement is that statement with the arguments
+    // substituted (the two forcing blocks extracted into a helper called once per side)
+    let mut block = f.block.clone();
+    let tc_file = &tc;
+    struct Inline<'a> {
+        file: &'a syn::File,
+    }
+    impl syn::visit_mut::VisitMut for Inline<'_> {
+        fn visit_block_mut(&mut self, b: &mut syn::Block) {
+            for st in b.stmts.iter_mut() {
+                let Stmt::Expr(Expr::MethodCall(mc), Some(_)) = st else { continue };
+                if toks(&mc.receiver) != "self" {
+                    continue;
+                }
+                let Ok(h) = find::func(self.file, &mc.method.to_string(), Some("TypeChecker")) else { continue };
+                let (Some(params), [Stmt::Expr(body @ Expr::If(i), _)]) = (param_names(&h.sig), &h.block.stmts[..]) else { continue };
+                let on_param = matches!(&*i.cond, Expr::Let(l) if params.iter().any(|p| toks(&l.expr) == format!("self.resolve_type({p})")));
+                let mut bs = Binders::default();
+                syn::visit::Visit::visit_expr(&mut bs, body);
+                if !on_param || params.len() != mc.args.len() || bs.0.iter().any(|x| params.contains(x)) {
+                    continue;
+                }
+                let map: std::collections::HashMap<String, Expr> = params.into_iter().zip(mc.args.iter().cloned()).collect();
+                let mut body = body.clone();
+                syn::visit_mut::VisitMut::visit_expr_mut(&mut Subst(&map), &mut body);
+                *st = Stmt::Expr(body, None);
+            }
+            syn::visit_mut::visit_block_mut(self, b);
+        }
+    }
+    syn::visit_mut::VisitMut::visit_block_mut(&mut Inline { file: tc_file }, &mut block);
+    let body = toks(&block);
     let mut v = ForceArms::default();
-    syn::visit::Visit::visit_block(&mut v, &f.block);
+    syn::visit::Visit::visit_block(&mut v, &block);
     if let Some(b) = v.bad.first() {
         return Err(format!("force_filtermap_types: {b}"));
     }
@@ -862,6 +955,21 @@ fn gate(repo: &Path) -> R {
         return Err(format!("check_roto_type: unexpected parameters {params:?}"));
     }
     let mut tr = Tr::default();
+    // single-expression helpers of the file (never the gate itself)
+    for it in &file.items {
+        let syn::Item::Fn(h) = it else { continue };
+        let name = h.sig.ident.to_string();
+        if name.starts_with("check_roto_type") {
+            continue;
+        }
+        if let ([Stmt::Expr(body, None)], Some(params)) = (&h.block.stmts[..], param_names(&h.sig)) {
+            let mut b = Binders::default();
+            syn::visit::Visit::visit_expr(&mut b, body);
+            if !b.0.iter().any(|x| params.contains(x)) {
+                tr.helpers.insert(name, (params, body.clone()));
+            }
+        }
+    }
     let body = tr.function(&f.block.stmts)?;
     if tr.leaf_arms.is_empty() {
         return Err("leaf-name guard table not found".into());
@@ -877,16 +985,28 @@ fn gate(repo: &Path) -> R {
     let (def, arities) = func_macro(&file)?;
     require(&def, "impl<$($a,)*$r>RotoFunc for fn($($a,)*)->$r where $($a:Value,)*$r:Value", "func! impl header")?;
     require(&def, "type Return=$r;", "func! Return type")?;
-    let p1 = pos(
-        &def,
-        "fn check_args(type_info:&mut TypeInfo,ty:&[Type])->Result<(),FunctionRetrievalError>{let[$($a),*]=ty else{let x:&[()]=&[$(unit!($a)),*];return Err(FunctionRetrievalError::IncorrectNumberOfArguments{expected:ty.len(),got:x.len(),});};",
-        "check_args arity test",
-    )?;
-    let p2 = pos(
-        &def,
-        "let mut i=0;$(i+=1;check_roto_type_reflect::<$a>(type_info,$a).map_err(|e|FunctionRetrievalError::TypeMismatch(format!(\"argument{i}\"),e))?;)*Ok(())}",
-        "check_args per-argument loop",
-    )?;
+    // the arity test: `let [$($a),*] = ty else { let <x>: &[()] = &[$(unit!($a)),*]; return Err(IncorrectNumberOfArguments { expected: ty.len(), got: <x>.len() }) };`
+    // (the name of the unit slice is free)
+    let head = "fncheck_args(type_info:&mutTypeInfo,ty:&[Type])->Result<(),FunctionRetrievalError>{let[$($a),*]=tyelse{let";
+    let def_n = def.replace(['\n', ' '], "");
+    let p1 = pos(&def_n, head, "check_args arity test")?;
+    let after = &def_n[p1 + head.len()..];
+    let local: String = after.chars().take_while(|c| c.is_alphanumeric() || *c == '_').collect();
+    let want = format!("{local}:&[()]=&[$(unit!($a)),*];returnErr(FunctionRetrievalError::IncorrectNumberOfArguments{{expected:ty.len(),got:{local}.len(),}});}};");
+    if local.is_empty() || !after.starts_with(&want) {
+        return Err(format!("check_args arity test: after the slice pattern expected `let x: &[()] = &[$(unit!($a)),*]; return Err(IncorrectNumberOfArguments {{ expected: ty.len(), got: x.len() }})`, found `{}`", &after[..after.len().min(200)]));
+    }
+    // the per-argument loop, with either spelling of "return the mismatch of the first argument that fails"
+    let loop_a = "letmuti=0;$(i+=1;check_roto_type_reflect::<$a>(type_info,$a).map_err(|e|FunctionRetrievalError::TypeMismatch(format!(\"argument{i}\"),e))?;)*Ok(())}";
+    let loop_b = "letmuti=0;$(i+=1;ifletErr(e)=check_roto_type_reflect::<$a>(type_info,$a){returnErr(FunctionRetrievalError::TypeMismatch(format!(\"argument{i}\"),e));})*Ok(())}";
+    let p2 = match (def_n.matches(loop_a).count(), def_n.matches(loop_b).count()) {
+        (1, 0) => def_n.find(loop_a).unwrap(),
+        (0, 1) => def_n.find(loop_b).unwrap(),
+        _ => return Err("check_args per-argument loop: expected `let mut i = 0; $( i += 1; check_roto_type_reflect::<$a>(type_info, $a) … TypeMismatch(format!(\"argument {i}\"), e) … )* Ok(())` (with `.map_err(..)?` or `if let Err(e) = .. { return Err(..) }`)".into()),
+    };
+    if p1 + head.len() + want.len() != p2 {
+        return Err("check_args: statements between the arity test and the argument loop".into());
+    }
     if p1 >= p2 {
         return Err("check_args: arity test must precede the argument loop".into());
     }
@@ -900,9 +1020,27 @@ fn gate(repo: &Path) -> R {
     // stands at the top level is a plain `let` that can neither leave the
     // function nor branch. So every request runs every check, whatever was
     // asked before.
+    // the variable that holds the qualified name (`name`, shadowing the parameter, or any other)
+    let qn: String = gf
+        .block
+        .stmts
+        .iter()
+        .find_map(|st| match st {
+            Stmt::Local(l) if l.init.as_ref().is_some_and(|i| toks(&i.expr) == "format!(\"pkg.{name}\")") => match &l.pat {
+                Pat::Ident(i) if i.subpat.is_none() && i.by_ref.is_none() => Some(i.ident.to_string()),
+                _ => None,
+            },
+            _ => None,
+        })
+        .ok_or("get_function: no `let <qualified> = format!(\"pkg.{name}\");`")?;
+    // the lookup: `.ok_or_else(|| DoesNotExist {..})?` or `let Some(..) = .. else { return Err(DoesNotExist {..}) }`
+    let lookup_a = format!("let function_info = self.functions.get(&{qn}).ok_or_else(|| {{ FunctionRetrievalError::DoesNotExist {{");
+    let lookup_b = format!("let Some(function_info) = self.functions.get(&{qn}) else {{ return Err(FunctionRetrievalError::DoesNotExist {{");
+    let lookup = if gf.block.stmts.iter().any(|st| toks(st).starts_with(&lookup_b.replace(' ', ""))) { lookup_b } else { lookup_a };
+    let prefix = format!("let {qn} = format!(\"pkg.{{name}}\");");
     let steps = [
-        ("prefix", "let name = format!(\"pkg.{name}\");"),
-        ("lookup", "let function_info = self.functions.get(&name).ok_or_else(|| { FunctionRetrievalError::DoesNotExist {"),
+        ("prefix", prefix.as_str()),
+        ("lookup", lookup.as_str()),
         ("bind", "let sig = &function_info.signature;"),
         ("requireSignature", "let Some(sig) = &sig else { return Err(FunctionRetrievalError::DoesNotExist {"),
         ("checkArgs", "F::check_args(&mut self.type_info, &sig.parameter_types)?;"),
